@@ -26,10 +26,20 @@ func drawBatchSize(rc *RunCtx) int {
 	}
 }
 
+// pickKeys draws n distinct keys; within one run the rounds start from the same key with the same stride,
+// so that successive rounds meet the histories the earlier ones left (a run-level anchor kept in rc.Local).
 func pickKeys(rc *RunCtx, total, n int) []int {
 	strides := []int{1, 3, 7, 11, 17, 23, 101}
 	st := strides[rc.Ch.Pick(len(strides), 0)]
 	start := rc.Ch.Pick(total, 0)
+	if rc.Local == nil {
+		rc.Local = map[string]string{}
+	}
+	if a, ok := rc.Local["key_anchor"]; ok {
+		fmt.Sscanf(a, "%d/%d", &start, &st)
+	} else if rc.Ch.Pick(4, 0) != 3 {
+		rc.Local["key_anchor"] = fmt.Sprintf("%d/%d", start, st)
+	}
 	out := make([]int, n)
 	for i := range out {
 		out[i] = (start + i*st) % total
@@ -119,12 +129,12 @@ func attFor(rc *RunCtx, k int, wm Watermark, uniq uint64) Entry {
 		}
 	case m == 7: // equal target (must be refused unless fresh)
 		src, tgt = ls, lt
-	case m == 8: // lower source
+	case m == 8: // lower source, target possibly well ahead (refused: nothing about it may be remembered)
 		src = ls
 		if src > 0 {
 			src--
 		}
-		tgt = lt + 1
+		tgt = lt + 1 + uint64(ch.Pick(4, 0))
 	default: // target not above source
 		src = ls + 2
 		tgt = src - uint64(ch.Pick(2, 0))
@@ -154,7 +164,7 @@ func runBatch(t *testing.T, rc *RunCtx, prop string) {
 	defer w.close()
 	model := NewModelState(len(w.pop.Accts))
 	ledger := NewLedger()
-	rounds := 1 + ch.Pick(3, 0)
+	rounds := 1 + ch.Pick(5, 0)
 	uniq := uint64(0)
 	var desc []string
 	nontrivial := false
@@ -286,14 +296,32 @@ func runBatch(t *testing.T, rc *RunCtx, prop string) {
 				o.Entries = append(o.Entries, e)
 			}
 		case "multi":
+			// Neighbouring entries often share their data root (differing in domain only) or their domain
+			// (differing in data only), as sync-committee style traffic does.
+			share := ch.Pick(3, 0)
+			var first *Entry
 			for _, k := range keys {
 				uniq++
 				e := GenEntry(k, MkDomain([4]byte{byte(2 + ch.Pick(9, 0)), byte(ch.Pick(3, 0)), 0, 0}, ch.U64()), uniq)
 				if e.Domain[0] == 4 {
 					e.Domain[0] = 5
 				}
+				if first != nil && ch.Pick(4, 0) != 3 {
+					switch share {
+					case 1:
+						e.Data = first.Data
+					case 2:
+						e.Domain = first.Domain
+					}
+				}
 				e.ByKey = ch.Pick(3, 0) == 1
 				o.Entries = append(o.Entries, e)
+				if first == nil {
+					first = &o.Entries[0]
+				}
+			}
+			if share == 1 {
+				rc.Stats.Inc("probe_multisign_entries_sharing_data_root", 1)
 			}
 		case "att":
 			uniq++
